@@ -22,13 +22,14 @@ Record flags := mkF {
   g_peer : bool;       (* _on_peer_transfer_request skips when the TR slot holds a task that is not done *)
   cb_cond : bool;      (* done-callbacks clear the slot only when it still holds their own task *)
   c_rq : bool;         (* cancel_tasks cancels the RQ slot *)
-  c_tr : bool          (* cancel_tasks cancels the TR slot *)
+  c_tr : bool;         (* cancel_tasks cancels the TR slot *)
+  rm_cancels : bool    (* remove() cancels and awaits whatever the slots still hold, whatever the abort did *)
 }.
 
 (* the code as it is now *)
 Definition cur : flags :=
   mkF CYCLE_GUARD_RQ CYCLE_GUARD_TR PEERMSG_GUARD CALLBACK_CONDITIONAL
-      (CANCEL_RQ_SLOT && STOP_CANCELS_FIRST) (CANCEL_TR_SLOT && STOP_CANCELS_FIRST).
+      (CANCEL_RQ_SLOT && STOP_CANCELS_FIRST) (CANCEL_TR_SLOT && STOP_CANCELS_FIRST) REMOVE_CANCELS_LEFTOVERS.
 
 Definition all_guards (f : flags) : bool := g_cycle_rq f && g_cycle_tr f && g_peer f && cb_cond f.
 
@@ -194,9 +195,13 @@ Definition step (f : flags) (s : st) (e : event) : st * list obs :=
       | None => (s, [])
       end
   | Abort | Pause => if sremoved s then (s, []) else (do_stop f s, [])
-  (* remove(): abort (refused, and swallowed, in COMPLETE/FAILED/ABORTED/PAUSED: nothing is cancelled
-     then and the call does not count as a stop of a running negotiation), then drop from the list *)
-  | Remove => if sremoved s then (s, []) else let s1 := do_stop f s in (with_stop true (stopped s1) s1, [])
+  (* remove(): abort (refused, and swallowed, in COMPLETE/FAILED/ABORTED/PAUSED), then -- repair F30 -- cancel and
+     await whatever the slots still hold, then drop the transfer from the list *)
+  | Remove =>
+      if sremoved s then (s, []) else
+      let s1 := do_stop f s in
+      let s2 := if rm_cancels f then cancel_slot (c_tr f) TR (cancel_slot (c_rq f) RQ s1) else s1 in
+      (with_stop true (stopped s2) s2, [])
   | Requeue =>
       if sremoved s then (s, []) else
       match sstate s with
